@@ -91,7 +91,7 @@ def full_width(curves, rng, quick, grp_scale=1.0, mul_scale=1.0):
         grp += g
         # ---- scalar multiplication: the corner set of scalars for every routine
         corners = gen_ep.scalar_corners(cv, rng, nrand=4 if quick else 12, nlong=3 if quick else 10)
-        per_op = max(6, int((22 if quick else 0.6 * len(corners)) * mul_scale))
+        per_op = max(6, int((18 if quick else 0.6 * len(corners)) * mul_scale))
 
         def ks_for(op, corners=corners, per_op=per_op):
             if per_op >= len(corners):
